@@ -30,7 +30,7 @@ EXPLANATION = ('Lean theorems about singleton lookup-or-construct as an atomic s
 # ------------------------------------------------------------------ generator
 def gen_case(rng, nthreads=None):
   nt = nthreads or rng.choice([2, 2, 3, 4])
-  keys = ['k1', 'k2', 'kn']   # the constructor of 'kn' returns None
+  keys = ['k1', 'k2', 'kn', 'kd']   # the constructor of 'kn' returns None, that of 'kd' uses the singleton 'k1'
   threads = []
   for _ in range(nt):
     prog = []
@@ -184,16 +184,19 @@ class SDict(dict):
 class SLock:
   """Cooperative (re-entrant) lock: a blocked acquire gives the turn back instead of blocking the OS thread."""
 
-  def __init__(self, sched):
+  def __init__(self, sched, reentrant=True):
     self.sched = sched
     self.owner = None
     self.depth = 0
+    self.reentrant = reentrant   # as the lock it stands in for
 
   def acquire(self):
     me = threading.get_ident()
     spins = 0
     while True:
       self.sched.checkpoint()
+      if self.owner == me and not self.reentrant:
+        raise Blocked('a thread waits for a (non re-entrant) gin lock that it holds itself')
       if self.owner is None or self.owner == me:
         self.owner = me
         self.depth += 1
@@ -233,7 +236,7 @@ def build(gin, sched):
       setattr(cfg, name, d)
     for name in ('_OPERATIVE_CONFIG_LOCK', '_SINGLETONS_LOCK'):
       if hasattr(cfg, name):
-        setattr(cfg, name, SLock(sched))
+        setattr(cfg, name, SLock(sched, reentrant=type(getattr(cfg, name)) is type(threading.RLock())))
   return fns
 
 
@@ -243,6 +246,12 @@ def do_action(gin, fns, act, counts, log):
 
     def ctor():
       counts[key] = counts.get(key, 0) + 1
+      if key == 'kd':   # a singleton whose constructor needs another singleton
+        def ctor1():
+          counts['k1'] = counts.get('k1', 0) + 1
+          return object()
+        dep = gin.config.singleton_value('k1', ctor1)
+        log.append(['single', 'k1', id(dep)])
       return None if key == 'kn' else object()
     obj = gin.config.singleton_value(key, ctor)
     log.append(['single', key, id(obj)])
@@ -312,10 +321,23 @@ def run_impl(case):
   g3 = core.fresh_gin()
   fns3 = build(g3, None)
   c3 = {}
-  for prog in case['threads']:
-    for act in prog:
-      do_action(g3, fns3, act, c3, [])
-  seq = g3.operative_config_str()
+  seq_box = {}
+
+  def sequential():
+    for prog in case['threads']:
+      for act in prog:
+        do_action(g3, fns3, act, c3, [])
+    seq_box['text'] = g3.operative_config_str()
+  if any(errors):
+    seq_box['text'] = None      # a thread already failed: that is the report (and real locks might hang here)
+  else:
+    th = threading.Thread(target=sequential, daemon=True)
+    th.start()
+    th.join(timeout=20)
+    if th.is_alive():
+      errors = list(errors) + ['the sequential run of the same actions does not return (a lock is never released)']
+      seq_box['text'] = None
+  seq = seq_box.get('text')
   ids = {}
   for lg in logs:
     for e in lg:
@@ -330,7 +352,10 @@ def to_driver(case, impl):
   if case['dom'] == 'gin':
     import gindom
     return gindom.to_driver(case, impl)
-  return {'dom': 'sched', 'threads': case['threads'], 'schedule': case['schedule']}
+  # a use of 'kd' is a use of 'k1' (by its constructor) and of 'kd'
+  threads = [[x for act in prog for x in ([['single', 'k1'], act] if act[:2] == ['single', 'kd'] else [act])]
+             for prog in case['threads']]
+  return {'dom': 'sched', 'threads': threads, 'schedule': case['schedule']}
 
 
 def compare(case, impl, model):
